@@ -300,7 +300,11 @@ pub open spec fn has_fields_of(fs: Fields, of: Fields) -> bool {
 //  * otherwise one of the two shapes, and the MORE SPECIFIC one where that is defined:
 //    - against a side that puts no constraint (hole, Any, no candidates): the other side;
 //    - a candidate set against a definite shape: the definite shape;
-//    - two tuples: a tuple that has every field of both (narrowing never forgets a field);
+//    - two tuples: a tuple that has every field of both (narrowing never forgets a field). This IS part of C06: the narrowed
+//      shape becomes the static type of the binding, so a forgotten field is invisible to every later constraint:
+//        let x :: {a=0} = {a=1, b=2};  let y :: {a=0, b=""} = x;
+//      built (exit 0, y.b == 2) while the exemplar wants a string, and is refused without the first, satisfied constraint
+//      (fixed by "tuple narrowing keeps the tuple that has all the fields"; mutant tuple_result_forgets_fields is the old code);
 //    - two lists: the side whose element types are all admitted by the other side (unknown element type: the other side).
 pub open spec fn np_err(a: Shape, b: Shape, r: Shape) -> bool {
     (r is TypeErr) == !compat(a, b)
@@ -317,6 +321,18 @@ pub open spec fn np_side(a: Shape, b: Shape, r: Shape) -> bool {
 pub open spec fn np_tuple(a: Shape, b: Shape, r: Shape) -> bool {
     !(r is TypeErr) && a is Tuple && b is Tuple ==> r is Tuple
         && has_fields_of(r->Tuple_0.val@, a->Tuple_0.val@) && has_fields_of(r->Tuple_0.val@, b->Tuple_0.val@)
+}
+// What np_tuple buys in the two-step scenario above: a field that the bound value (a) has and a LATER exemplar (c) names is
+// still a field of the narrowed shape (r), so the later check compares its type instead of not seeing the field.
+pub proof fn lemma_np_tuple_no_field_lost(a: Shape, b: Shape, r: Shape, c: Shape, n: Seq<char>)
+    requires
+        a is Tuple, b is Tuple, c is Tuple, !(r is TypeErr), np_tuple(a, b, r),
+        has_field(a->Tuple_0.val@, n), has_field(c->Tuple_0.val@, n),
+    ensures r is Tuple, has_field(r->Tuple_0.val@, n)
+{
+    let fa = a->Tuple_0.val@;
+    let i = choose|i: int| 0 <= i < fa.len() && (#[trigger] fa[i]).0.val@ == n;
+    assert(has_field(r->Tuple_0.val@, fa[i].0.val@));
 }
 pub open spec fn np_list(a: Shape, b: Shape, r: Shape) -> bool {
     !(r is TypeErr) && a is List && b is List ==> match (elems(a->List_0), elems(b->List_0)) {
